@@ -106,11 +106,11 @@ Proof.
   intros H0 H. apply (J_mono T (t :: T)) in H; [|intros x Hx; right; exact Hx].
   unfold do_enter. pose proof (entry_check_J (t :: T) c s a H) as H1.
   destruct (entry_check c s a) as [[[s1 v] tr] sv]. cbn [fst] in H1.
-  destruct (shp c), v; try exact H1;
+  destruct (shp c), v; try destruct (state_trig tr); try exact H1;
     try (apply entry_record_J; [exact H1|cbn [f_start f_flags norecord]; first [left; left; reflexivity|right; reflexivity]]).
   (* cygprof beyond the stack limit: a ghost frame (start time 0) *)
-  destruct H1 as [A B]. split; [|exact B]. cbn [stack]. constructor; [|exact A].
-  right. right. cbn [ghost_frame f_start]. right. exact H0.
+  all: destruct H1 as [A B]; split; [|exact B]; cbn [stack]; constructor; [|exact A];
+    right; right; cbn [ghost_frame f_start]; right; exact H0.
 Qed.
 
 Lemma fr_ok_set_end T f t : fr_ok T f -> fr_ok T (set_end f t).
